@@ -4,6 +4,7 @@ Property theorems only; helper lemmas live in Proofs/RunLength.lean.
 All theorems hold for every sequence and every count maximum `m ≥ 1` (no bound on lengths).
 -/
 import TrimeshVerif.Proofs.RunLength
+import TrimeshVerif.Proofs.Views
 namespace TV.C13
 open TV.RunLength
 
@@ -157,6 +158,63 @@ theorem C13_binvox_roundtrip (d : List Bool) :
     refine ⟨C13_rle_counts_fit 255 (by decide) d r hr, ?_⟩
     dsimp only
     split <;> decide
+
+
+/-! ### lazy views: the index maps of FlattenedEncoding / ShapedEncoding / FlippedEncoding / TransposedEncoding -/
+
+section views
+open TV.Views
+
+/-- **`ravel_multi_index` and `unravel_index` are mutually inverse** on every shape (any rank, any extents):
+    the flattened and reshaped views address the same entries as the array they wrap -/
+theorem C13_ravel_unravel (shape : List Nat) :
+    (∀ idx, inRange shape idx = true →
+        ravel shape idx < size shape ∧ unravel shape (ravel shape idx) = idx) ∧
+    (∀ k, k < size shape → inRange shape (unravel shape k) = true ∧ ravel shape (unravel shape k) = k) :=
+  ⟨fun idx h => ⟨ravel_lt shape idx h, unravel_ravel shape idx h⟩, fun k h => ravel_unravel shape k h⟩
+
+/-- **reshaped / flattened view**: reading the view at an in-range multi-index reads the entry at the same
+    C-order position of the base (`gather_nd`, `get_value` through `_to_base_indices`) -/
+theorem C13_reshape_view {α : Type} (d : α) (oldShape newShape : List Nat) (data : List α) (idx : List Nat)
+    (hs : size oldShape = size newShape) (hr : inRange newShape idx = true) :
+    entry d oldShape data (reshapeIdx oldShape newShape idx) = entry d newShape data idx ∧
+    inRange oldShape (reshapeIdx oldShape newShape idx) = true :=
+  reshape_entry d oldShape newShape data idx hs hr
+
+/-- **flipped view**: `_to_base_indices` is an involution that keeps indices in range (so it is also
+    `_from_base_indices`), and mapping the sparse indices of the base through it gives exactly the positions
+    where the flipped array is non-zero; in one dimension the flipped array is the reversed list -/
+theorem C13_flip_view (shape axes : List Nat) (data : List Int) (idx : List Nat) :
+    (inRange shape idx = true → inRange shape (flipIdx shape axes idx) = true ∧
+        flipIdx shape axes (flipIdx shape axes idx) = idx) ∧
+    (idx ∈ (sparseIdx shape data).map (flipIdx shape axes) ↔
+        inRange shape idx = true ∧ entry 0 shape data (flipIdx shape axes idx) ≠ 0) :=
+  ⟨fun h => ⟨flipIdx_inRange shape axes idx h, flipIdx_involutive shape axes idx h⟩,
+   flip_sparse shape axes data idx⟩
+
+theorem C13_flip_1d (data : List Int) (i : Nat) (hi : i < data.length) :
+    data.reverse.getD i 0 = entry 0 [data.length] data (flipIdx [data.length] [0] [i]) :=
+  flip_1d data i hi
+
+/-- **transposed view, partial**: `np.transpose(dense, perm)[idx]` reads the base at `j` with
+    `j[perm[d]] = idx[d]` (`transposeBase`); the code's `np.take(indices, perm)` is that index when the
+    permutation is its own inverse - every 2-D transpose and every swap of two axes -/
+theorem C13_transpose_view_partial (perm idx : List Nat) (hn : perm.Nodup) (hr : ∀ p ∈ perm, p < perm.length)
+    (hl : idx.length = perm.length) :
+    takeIdx perm (transposeBase perm idx) = idx ∧
+    ((∀ d, d < perm.length → perm.getD (perm.getD d 0) 0 = d) → takeIdx perm idx = transposeBase perm idx) :=
+  ⟨transposeBase_spec perm idx hn hr hl, takeIdx_eq_transposeBase_of_involution perm idx hn hr⟩
+
+/-- the full statement fails for the code as it is: for a cyclic permutation of three axes the code's index
+    map reads a different entry than `np.transpose` (known finding: transposed `gather_nd` / `sparse_indices`
+    for 3-cycles) -/
+theorem C13_transpose_view_cycle_witness :
+    takeIdx [1, 2, 0] [0, 1, 2] = [1, 2, 0] ∧ transposeBase [1, 2, 0] [0, 1, 2] = [2, 0, 1] := by decide
+
+example : inRange [2, 3, 4] [1, 2, 3] = true ∧ ravel [2, 3, 4] [1, 2, 3] = 23 ∧ unravel [2, 3, 4] 23 = [1, 2, 3] ∧
+    flipIdx [2, 3, 4] [0, 2] [1, 2, 3] = [0, 2, 0] := by decide
+
+end views
 
 /-! non-vacuity: concrete instances exercised by evaluation (tests, labelled as such) -/
 example : denseToRle 2 [5, 5, 5, 5, 5, 3] = [(5, 2), (5, 2), (5, 1), (3, 1)] := by decide
